@@ -212,9 +212,7 @@ def project(root_value, outer, schema, topo):
         # pos: absolute position (tuple) of the store this (sub)schema is wired to
         if s == '**' or is_variable(s):
             return value_at(pos)
-        cur = value_at(pos)
-        if not isinstance(cur, dict):
-            return cur                      # a variable shown whole
+        value_at(pos)                       # the store must exist
         if s.get('_output'):
             return {}
         out = {}
